@@ -398,7 +398,13 @@ func (mr *mapRange) classify(c *Ctx, eff map[*ssa.Function]effectSet) {
 				if bi, ok := cc.Value.(*ssa.Builtin); ok {
 					switch bi.Name() {
 					case "delete":
-						if len(cc.Args) == 2 && cc.Args[1] == mr.Key {
+						keyArg := cc.Args[1]
+						if ld, ok := keyArg.(*ssa.UnOp); ok {
+							if w := cellValue(ld); w != nil {
+								keyArg = w
+							}
+						}
+						if len(cc.Args) == 2 && keyArg == mr.Key {
 							tok["delete:loopkey"] = true
 						} else {
 							tok["delete:other"] = true
